@@ -270,6 +270,8 @@ def stepLine (st : St) (line : String) : St × String :=
   | [] => (st, out3 "-")
   | "#" :: _ => (st, out3 "-")
   | "!sins" :: _ => (st, out3 "-")
+  | "!merge" :: _ => (st, out3 "-")
+  | "!mergew" :: _ => (st, out3 "-")
   | "!sfinish" :: _ => (st, out3 "-")
   | "S" :: _ => ({ fixF1 := st.fixF1 }, out3 "-")
   | ["fixF1", b] => ({ st with fixF1 := b = "1" }, out3 "-")
@@ -501,7 +503,7 @@ def stepLine (st : St) (line : String) : St × String :=
          else
            ({ st with sorter := none },
             out3 ("ok " ++ fmtList out)
-              s!"chunks={s'.chunks.length} calls={s'.calls.length} cfnv={hex64 (fnvCalls fnvInit s'.calls)}"
+              s!"chunks={s'.chunks.length} calls={s'.calls.length} cfnv={hex64 (fnvCalls fnvInit s'.calls)} aev={",".intercalate ((s'.events.drop s.events.length).filterMap (fun e => match e with | .alloc n => some s!"A{n}" | .dealloc n => some s!"D{n}" | _ => none))}"
               (match sorterSpec mf st.sall.reverse with
                | some l => "ok " ++ fmtList l
                | none => "?"))
